@@ -38,6 +38,24 @@ func verifyFunctions(P *Program, C *Contracts, keys []string, opt solveOpts, fil
 		o  *Obligation
 	}
 	var jobs []job
+	// a contract on a generic function covers every instance the program contains
+	var expanded []string
+	for _, k := range keys {
+		fn := P.Funcs[k]
+		if fn != nil && fn.TypeParams().Len() > 0 && len(fn.TypeArgs()) == 0 {
+			var inst []string
+			for ik, f := range P.Funcs {
+				if f.Origin() == fn {
+					inst = append(inst, ik)
+				}
+			}
+			sort.Strings(inst)
+			expanded = append(expanded, inst...)
+			continue
+		}
+		expanded = append(expanded, k)
+	}
+	keys = expanded
 	for _, k := range keys {
 		fn := P.Funcs[k]
 		fr := &FuncResult{Key: k}
